@@ -8,54 +8,24 @@
 //!        every event must equal the sequential one ("tmis": number of threads that disagreed)
 //!   tzverif one '<json line>'...     execute single events and print them
 mod exec;
+mod mem;
+#[cfg(feature = "assert-traits")]
+mod traits;
 mod wire;
 
 use serde_json::Value;
-use std::alloc::{GlobalAlloc, Layout, System};
 use std::io::{BufRead, BufReader, BufWriter, Write};
-use std::sync::atomic::{AtomicUsize, Ordering};
 
-/// Counting allocator (in the harness, not in tz-rs): current and peak bytes, used for the allocation bound of C07.
-struct Counting;
-static CUR: AtomicUsize = AtomicUsize::new(0);
-static PEAK: AtomicUsize = AtomicUsize::new(0);
-unsafe impl GlobalAlloc for Counting {
-    unsafe fn alloc(&self, l: Layout) -> *mut u8 {
-        let p = System.alloc(l);
-        if !p.is_null() {
-            let c = CUR.fetch_add(l.size(), Ordering::Relaxed) + l.size();
-            PEAK.fetch_max(c, Ordering::Relaxed);
-        }
-        p
-    }
-    unsafe fn dealloc(&self, p: *mut u8, l: Layout) {
-        CUR.fetch_sub(l.size(), Ordering::Relaxed);
-        System.dealloc(p, l)
-    }
-    unsafe fn realloc(&self, p: *mut u8, l: Layout, new: usize) -> *mut u8 {
-        let q = System.realloc(p, l, new);
-        if !q.is_null() {
-            if new >= l.size() {
-                let c = CUR.fetch_add(new - l.size(), Ordering::Relaxed) + (new - l.size());
-                PEAK.fetch_max(c, Ordering::Relaxed);
-            } else {
-                CUR.fetch_sub(l.size() - new, Ordering::Relaxed);
-            }
-        }
-        q
-    }
-}
 #[global_allocator]
-static GLOBAL: Counting = Counting;
+static GLOBAL: mem::Counting = mem::Counting;
 
 fn run_line(line: &str, st: &mut exec::State, mem: bool) -> Value {
     let mut v: Value = serde_json::from_str(line).expect("input line is not JSON");
     let op = v.get("op").and_then(|x| x.as_str()).expect("line without op").to_string();
     let a = v.get("a").cloned().unwrap_or(Value::Null);
-    let base = CUR.load(Ordering::Relaxed);
-    PEAK.store(base, Ordering::Relaxed);
+    mem::clear_last();
     let r = exec::exec(&op, &a, st);
-    let peak = PEAK.load(Ordering::Relaxed).saturating_sub(base);
+    let peak = mem::last();
     let mut m = v.get("x").map(|x| x.as_array().map(|xs| xs.iter().any(|e| *e == r)).unwrap_or(false));
     if v.get("xerr").is_some() {
         // the specification only says "refused": any error kind matches
